@@ -37,7 +37,8 @@ Read == /\ pc = "read"
 Treat == pc = "treat" /\ mem' = mem \cup newItems /\ pc' = "open" /\ UNCHANGED <<file, run, reported, registered, newItems, crashed>>
 OpenTrunc == pc = "open" /\ file' = <<"partial", {}>> /\ pc' = "write" /\ UNCHANGED <<mem, run, reported, registered, newItems, crashed>>
 Write == pc = "write" /\ file' = <<"valid", mem>> /\ pc' = "close" /\ UNCHANGED <<mem, run, reported, registered, newItems, crashed>>
-Close == pc = "close" /\ pc' = "idle" /\ registered' = registered \cup mem /\ UNCHANGED <<file, mem, run, reported, newItems, crashed>>
+\* a run that reported the damaged registry starts a new registry: what was lost has been reported, the obligation on it ends
+Close == pc = "close" /\ pc' = "idle" /\ registered' = (IF reported THEN mem ELSE registered \cup mem) /\ UNCHANGED <<file, mem, run, reported, newItems, crashed>>
 Crash == /\ pc \in {"read", "treat", "open", "write", "close"}
          /\ pc' = "idle" /\ crashed' = TRUE
          /\ UNCHANGED <<file, mem, run, reported, registered, newItems>>
